@@ -154,14 +154,16 @@ class Index:
             match, skipped = next_match()
         else:
             match = None
+            # both bounds are inclusive, as they are for the scans above:
+            # start after the last key of `until`, stop below the first key of `since`
             if until:
-                start = self.prefix + until + b"\x00"
+                start = self.prefix + until + b"\xff"
             else:
                 start = self.prefix + b"\xff"
             cursor.set_range(start)
             stop = self.prefix
             if since:
-                stop += since + b"\xff"
+                stop += since
             # print(f'{start} -> {stop}')
 
         def iterator(match):
